@@ -129,7 +129,7 @@ func (s *Svc) enter(method string, args []byte) (string, []byte) {
 		// a request sent with the NoRequest flag carries no argument bytes: attribute the
 		// execution to the oldest such request that has not run yet
 		for _, j := range e.order {
-			if rq := e.reqs[j]; rq.up&0x80 != 0 && rq.kind != "ping" && e.execs[j] == 0 && rq.method == method {
+			if rq := e.reqs[j]; rq.up&0x80 != 0 && rq.up&0x20 == 0 && (rq.up>>3)&3 == 0 && rq.kind != "ping" && e.execs[j] == 0 && rq.method == method {
 				k = j
 				break
 			}
@@ -415,7 +415,15 @@ func (e *srvEnv) request(k int, method, kind string, hold bool, up byte, payload
 	if hold {
 		e.hub.Hold(fmt.Sprintf("h:%d", k))
 	}
-	return e.feedFrame(encodeRequest(e.hdr, v))
+	if !e.feedFrame(encodeRequest(e.hdr, v)) {
+		e.mu.Lock()
+		delete(e.reqs, k)
+		e.order = e.order[:len(e.order)-1]
+		e.mu.Unlock()
+		e.hub.Unhold(fmt.Sprintf("h:%d", k))
+		return false
+	}
+	return true
 }
 
 // requestNoWait feeds a unary request without checking that the reader is already waiting.
